@@ -321,6 +321,8 @@ def error_kind_exposed_iff_declared(ci: int, has_sid: bool) -> bool:
 # ---------------------------------------------------------------------------
 
 from vgi_rpc.http._common import _ARROW_CONTENT_TYPE, RPC_ERROR_HEADER  # noqa: E402
+from vgi_rpc.http.server import _app_stream as aps_mod  # noqa: E402
+from vgi_rpc.http.server import _app_unary as apu_mod  # noqa: E402
 from vgi_rpc.http.server import _responses as resp_mod  # noqa: E402
 
 _STATUSES = tuple(HTTPStatus)
@@ -545,3 +547,214 @@ def error_at_dispatch_sites(ci: int, mi: int, site: int) -> bool:
     post: _
     """
     return _site_ok(_concrete(ci, len(_CLASSES)), _MESSAGES[_concrete(mi, 5)], _concrete(site, 4), real=False)
+
+
+# ---------------------------------------------------------------------------
+# (d) the HTTP dispatch sites through the real WSGI stack (falcon test client, real tokens)
+# ---------------------------------------------------------------------------
+
+from vgi_rpc.rpc import ExchangeState  # noqa: E402
+
+
+class BadShapeError(TypeError):
+    """User-defined error that happens to derive from TypeError."""
+
+
+class LookupFailed(KeyError):
+    """User-defined KeyError subclass."""
+
+
+# classes an HTTP handler might confuse with *request* errors (its 400 tuples name TypeError,
+# ArrowInvalid, StopIteration, VersionError) next to ordinary ones
+_HTTP_CLASSES = (
+    ValueError,
+    RuntimeError,
+    TypeError,
+    BadShapeError,
+    pa.ArrowInvalid,
+    StopIteration,
+    KeyError,
+    LookupFailed,
+    AppError,
+    KindedAppError,
+    common.VersionError,
+    common.ProtocolVersionError,
+    common.MethodNotImplementedError,
+    common.SessionLostError,
+)
+_H_UNARY, _H_INIT, _H_PRODUCE_FIRST, _H_PRODUCE_LATER, _H_EXCHANGE_FIRST, _H_EXCHANGE_LATER = 0, 1, 2, 3, 4, 5
+_IN_SCHEMA = pa.schema([pa.field("x", pa.int64())])
+_IN_BATCH = pa.RecordBatch.from_pydict({"x": [1]}, schema=_IN_SCHEMA)
+
+
+def _maybe_raise(here: int) -> None:
+    if _S["site"] == here:
+        raise _S["exc"]
+
+
+@dataclass
+class _HProducer(ProducerState):
+    def produce(self, out, ctx) -> None:  # type: ignore[no-untyped-def]
+        step = _S["step"]
+        _S["step"] = step + 1
+        _maybe_raise(_H_PRODUCE_FIRST if step == 0 else _H_PRODUCE_LATER)
+        out.emit(_DATA)
+
+
+@dataclass
+class _HExchange(ExchangeState):
+    def exchange(self, input, out, ctx) -> None:  # type: ignore[no-untyped-def]
+        step = _S["step"]
+        _S["step"] = step + 1
+        _maybe_raise(_H_EXCHANGE_FIRST if step == 0 else _H_EXCHANGE_LATER)
+        out.emit(_DATA)
+
+
+class _HProto(Protocol):
+    def u(self) -> int: ...
+
+    def gen(self) -> Stream[ProducerState]: ...
+
+    def exch(self) -> Stream[ExchangeState]: ...
+
+
+class _HImpl:
+    def u(self) -> int:
+        _maybe_raise(_H_UNARY)
+        return 1
+
+    def gen(self) -> Stream[_HProducer]:
+        _maybe_raise(_H_INIT)
+        return Stream(output_schema=_SCHEMA, state=_HProducer())
+
+    def exch(self) -> Stream[_HExchange]:
+        return Stream(output_schema=_SCHEMA, state=_HExchange(), input_schema=_IN_SCHEMA)
+
+
+class _RecClient:
+    """Pass-through around the in-process HTTP client that keeps (url, status, marker) of every response."""
+
+    def __init__(self, inner) -> None:  # type: ignore[no-untyped-def]
+        self._inner = inner
+        self.prefix = getattr(inner, "prefix", "")
+        self.log: list = []
+
+    def post(self, url, **kw):  # type: ignore[no-untyped-def]
+        r = self._inner.post(url, **kw)
+        marker = {k.lower(): v for k, v in dict(r.headers).items()}.get(RPC_ERROR_HEADER.lower())
+        self.log.append((url, r.status_code, marker))
+        return r
+
+    def __getattr__(self, name: str):  # type: ignore[no-untyped-def]
+        return getattr(self._inner, name)
+
+
+def _http_site(ci: int, site: int) -> str | None:
+    """Drive one scenario through the real HTTP stack; returns a problem description or None."""
+    from vgi_rpc.http import http_connect, make_sync_client
+    from vgi_rpc.rpc import AnnotatedBatch
+
+    cls = _HTTP_CLASSES[ci]
+    exc = cls("boom %d" % ci)
+    _S["exc"] = exc
+    _S["site"] = site
+    _S["step"] = 0
+    # max_response_bytes=1: a producer hands out a continuation token after every batch
+    client = _RecClient(make_sync_client(srv.RpcServer(_HProto, _HImpl(), server_id="srv"), token_key=b"k" * 32, max_response_bytes=1 if site == _H_PRODUCE_LATER else None))
+    err = None
+    good: list = []
+    with http_connect(_HProto, client=client) as proxy:
+        n0 = len(client.log)
+        try:
+            if site == _H_UNARY:
+                proxy.u()
+            elif site in (_H_INIT, _H_PRODUCE_FIRST, _H_PRODUCE_LATER):
+                it = iter(proxy.gen())
+                next(it)
+                good = list(client.log[n0:])
+                next(it)
+            else:
+                s = proxy.exch()
+                if site == _H_EXCHANGE_LATER:
+                    s.exchange(AnnotatedBatch(batch=_IN_BATCH))
+                good = list(client.log[n0:])
+                s.exchange(AnnotatedBatch(batch=_IN_BATCH))
+        except RpcError as e:
+            err = e
+        except StopIteration:
+            return "stream ended without reporting the error"
+    if err is None:
+        return "no RpcError reached the client"
+    if err.error_type != cls.__name__ or str(exc) not in err.error_message:
+        return "client saw %s: %s for a raised %s(%r)" % (err.error_type, err.error_message[:80], cls.__name__, str(exc))
+    url, status, marker = client.log[-1]
+    if status != 200 or marker != "true":
+        return "%s raised at HTTP site %d was answered with status %s, X-VGI-RPC-Error=%r on %s (expected 200 + 'true')" % (cls.__name__, site, status, marker, url)
+    for url, status, marker in good:
+        if status != 200 or marker is not None:
+            return "successful response %s carried status %s / marker %r" % (url, status, marker)
+    return None
+
+
+class _WallClock:
+    """time := concrete counters for the HTTP stack (durations, token issue/expiry times).
+
+    CrossHair models every clock read as a fresh symbolic float and discards paths on which two
+    reads are not ordered; nothing asserted here depends on time."""
+
+    def __init__(self) -> None:
+        self.t = 1_700_000_000
+
+    def monotonic(self) -> float:
+        self.t += 1
+        return float(self.t)
+
+    perf_counter = monotonic
+
+    def time(self) -> float:
+        self.t += 1
+        return float(self.t)
+
+    def __getattr__(self, name: str):  # pragma: no cover
+        raise HarnessModelError("clock stub touched through " + name)
+
+
+def _http_modules() -> list:
+    import sys
+
+    return [m for n, m in sorted(sys.modules.items()) if n.startswith("vgi_rpc.") and m is not None and getattr(m, "time", None) is not None
+            and getattr(getattr(m, "time"), "__name__", "") == "time"]
+
+
+def _with_stub_clock(fn, *a):  # type: ignore[no-untyped-def]
+    """Run ``fn`` with the module-level name ``time`` of every loaded vgi_rpc module bound to the
+    concrete clock (the same effect as re-globalising each of their functions with time=stub);
+    restored afterwards so replays run on the untouched modules."""
+    mods = _http_modules()
+    saved = [(m, m.time) for m in mods]
+    clock = _WallClock()
+    for m in mods:
+        m.time = clock
+    try:
+        return fn(*a)
+    finally:
+        for m, t in saved:
+            m.time = t
+
+
+def _replay_http_site(args: dict) -> str | None:
+    return _http_site(args["ci"], args["site"])
+
+
+@cond(q=90, t=300, encoded=[aps_mod._run_http_exchange_turn, aps_mod._run_http_producer_turn, aps_mod._run_stream_init_sync, aps_mod._run_stream_exchange_sync, apu_mod._run_unary_sync, resp_mod._set_error_response, resp_mod._set_http_status],
+      stubs=["time (module-level name in vgi_rpc modules) := concrete counter"], replay=_replay_http_site, signature=lambda a, c: "C07:http-site:error-not-200-with-marker",
+      bound="%d exception classes (incl. TypeError and a subclass, ArrowInvalid, StopIteration, KeyError and a subclass, VersionError, typed framework errors) x 6 HTTP dispatch sites (unary, stream init, first / later produce, first / later exchange); real falcon WSGI stack, tokens, pyarrow, json" % len(_HTTP_CLASSES))
+def error_at_http_sites(ci: int, site: int) -> bool:
+    """
+    pre: 0 <= ci < len(_HTTP_CLASSES) and 0 <= site <= 5
+    post: _
+    """
+    try:
+        return _with_stub_clock(_http_site, _concrete(ci, len(_HTTP_CLASSES)), _concrete(site, 6)) is None
+    except Exception:  # noqa: BLE001
+        return False
